@@ -22,6 +22,7 @@ CLAUSE = CLAUSE + (" (5) RF-IVL: every subscript of a constant-size array in vps
 CLAUSE = CLAUSE + (" (6) RF-DOM: the VPS and DVB PDC descriptor decoders refuse on framing bytes only (descriptor_tag, "
                    "descriptor_length), never on the decoded label: every value the encoders accept decodes.")
 CLAUSE = CLAUSE + (" (7) the 0xDC3 exception of vbi_decode_vps_cni is selected by an equality test of the whole received code.")
+CLAUSE = CLAUSE + (' (8) the branch that negates the 8/30-1 local time offset depends on exactly one bit of the offset byte, none of the magnitude bits.')
 NOT_DECIDED = ("BCD/MJD/UTC arithmetic of 8/30 format 1 (numeric), the Hamming 24/18 arithmetic, the TR 101 231 0xDC3 special case (documented exception, its branch "
                "is excluded from the bit-provenance comparison).")
 
